@@ -15,6 +15,7 @@ def P(name, pkg, race=False, run=None, quick=1500, thorough=14400, tiers=None, a
     return d
 
 PROPS = {
+    "C09": {"level": "fault_enumeration", "parts": [P("main", "c09", run="^TestC09$"), P("strace", "c09", run="^TestC09Strace$")]},
     "C08": {"level": "exploration", "parts": [P("main", "c08", run="^TestC08$"), P("race", "c08", race=True, run="^TestC08Race$")]},
     "C07": {"level": "exploration", "parts": [P("race", "c07", race=True, run="^TestC07$")]},
     "C04": {"level": "exploration", "parts": [P("main", "c04", run="^TestC04$")]},
